@@ -36,6 +36,10 @@ func c12E2(tier string) []*e2Scenario {
 	add("tcp-A-two-clients", []colClient{cl(1, 2, nil, true), cl(2, 2, nil, true)}, colOpts{proto: "tcp"}, b)
 	add("tcp-B-two-clients-vs-stop", []colClient{cl(1, 2, nil, true), cl(2, 1, nil, false)}, colOpts{proto: "tcp", stopper: true}, b)
 	add("tcp-C-client-dies-mid-message", []colClient{dying, cl(2, 1, nil, true)}, colOpts{proto: "tcp"}, b)
+	// tcp-G: a client has sent a message header and part of the body and then goes quiet (connection open);
+	// Stop must still return
+	stalled := colClient{domain: 1, segments: [][]byte{whole[:cutMid]}, messages: s1[:1], closeAtEnd: false}
+	add("tcp-G-client-stalled-mid-message-vs-stop", []colClient{stalled}, colOpts{proto: "tcp", stopper: true}, b)
 	add("tcp-F-slow-consumer", []colClient{cl(1, 2, nil, true)}, colOpts{proto: "tcp", slowConsumer: true}, b)
 	add("tcp-D-three-clients", []colClient{cl(1, 0, nil, true), cl(2, 0, nil, true), cl(3, 0, nil, true)}, colOpts{proto: "tcp"}, b)
 	// tcp-E: two exporters of the same observation domain use the same template id; B re-defines the
